@@ -369,6 +369,7 @@ class HDS(AlignedStream):
         """
         bat = self.bat
 
+        # A run offset of None denotes a sparse run
         run_offset = None
         run_size = 0
 
@@ -378,20 +379,23 @@ class HDS(AlignedStream):
 
             bat_entry = bat[cluster_idx]
             # BAT entry of 0 means either a sparse or a parent read
-            # Use 0 to denote a sparse run for now to make calculations easier
-            read_offset = 0 if bat_entry == 0 else bat_entry * self._bat_multiplier * SECTOR_SIZE + offset_in_cluster
+            if bat_entry == 0:
+                read_offset = None
+            else:
+                read_offset = bat_entry * self._bat_multiplier * SECTOR_SIZE + offset_in_cluster
 
-            if run_offset is None:
+            if run_size == 0:
                 # First iteration
                 run_offset = read_offset
                 run_size = read_size
-            elif (read_offset == run_offset + run_size) or (run_offset, read_offset) == (0, 0):
+            elif (run_offset is None and read_offset is None) or (
+                run_offset is not None and read_offset is not None and read_offset == run_offset + run_size
+            ):
                 # Consecutive (sparse) clusters
                 run_size += read_size
             else:
                 # New run
-                # Replace 0 with None as sparse sentinel value
-                yield (run_offset or None, run_size)
+                yield (run_offset, run_size)
 
                 # Reset run
                 run_offset = read_offset
@@ -400,7 +404,6 @@ class HDS(AlignedStream):
             offset += read_size
             length -= read_size
 
-        if run_offset is not None:
+        if run_size:
             # Flush remaining run
-            # Replace 0 with None as sparse sentinel value
-            yield (run_offset or None, run_size)
+            yield (run_offset, run_size)
